@@ -271,3 +271,74 @@ pub fn gpu_ops_basic() -> Vec<GpuOp> {
         GpuOp::CursorUpdate([1, 5, 6, 7, 8]),
     ]
 }
+
+pub fn bp_variants(level: u8, seed: u64) -> Vec<BpOp> {
+    use crate::feops::pat64;
+    use crate::lattice::*;
+    let l64 = rotate(&u64_lattice(level, seed), seed);
+    let mut v = Vec::new();
+    for k in 0..6u64 {
+        let mut u = [0u8; 16];
+        u[..8].copy_from_slice(&pat64(70 + k).to_ne_bytes());
+        u[8..].copy_from_slice(&pat64(80 + k).to_ne_bytes());
+        v.push(BpOp::SharedAdd(u));
+        v.push(BpOp::SharedRemove(u));
+        v.push(BpOp::SharedLookup(u));
+    }
+    for &x in &l64 {
+        // only descriptors the protocol calls valid (non-zero length, no wrap, defined flags) are
+        // guaranteed to be delivered; others are exercised by C05/C06
+        let ok = |fo: u64, so: u64, len: u64| len != 0 && fo.checked_add(len).is_some() && so.checked_add(len).is_some();
+        for (fo, so, len) in [(x, 0x2000, 0x1000), (0x1000, x, 0x1000), (0x1000, 0x2000, x)] {
+            if ok(fo, so, len) {
+                v.push(BpOp::ShmemMap((x & 0xff) as u8, fo, so, len, x & 1));
+                v.push(BpOp::ShmemUnmap((x >> 8) as u8, fo, so, len, (x >> 1) & 1));
+            }
+        }
+    }
+    for id in [0u8, 1, 127, 255] {
+        v.push(BpOp::ShmemMap(id, pat64(90) >> 2, pat64(91) >> 2, pat64(92) >> 2 | 1, 1));
+    }
+    v
+}
+
+pub fn gpu_variants(level: u8, seed: u64) -> Vec<GpuOp> {
+    use crate::lattice::*;
+    let l32 = rotate(&u32_lattice(level, seed), seed);
+    let l64 = rotate(&u64_lattice(level, seed), seed);
+    let p = |k: u32| 0x0102_0304u32.wrapping_mul(2 * k + 1) ^ (k << 24);
+    let mut v = vec![GpuOp::GetProtocolFeatures, GpuOp::GetDisplayInfo];
+    for &x in &l64 {
+        v.push(GpuOp::SetProtocolFeatures(x));
+        v.push(GpuOp::DmabufScanout2([p(1), p(2), p(3), p(4), p(5), p(6), p(7), p(8), p(9), p(10)], x, x & 1 == 0));
+    }
+    for &x in &l32 {
+        v.push(GpuOp::GetEdid(x));
+        v.push(GpuOp::SetScanout(x, p(11), p(12)));
+        v.push(GpuOp::SetScanout(p(13), x, p(14)));
+        v.push(GpuOp::SetScanout(p(15), p(16), x));
+        for i in 0..5 {
+            let mut u = [p(20), p(21), p(22), p(23), p(24)];
+            u[i] = x;
+            v.push(GpuOp::DmabufUpdate(u));
+            v.push(GpuOp::UpdateScanout(u, 16));
+            v.push(GpuOp::CursorUpdate(u));
+        }
+        for i in 0..3 {
+            let mut c = [p(30), p(31), p(32)];
+            c[i] = x;
+            v.push(GpuOp::CursorPos(c));
+            v.push(GpuOp::CursorPosHide(c));
+        }
+        for i in 0..10 {
+            let mut s = [p(40), p(41), p(42), p(43), p(44), p(45), p(46), p(47), p(48), p(49)];
+            s[i] = x;
+            v.push(GpuOp::DmabufScanout(s, i % 2 == 0));
+        }
+    }
+    let lens: Vec<usize> = if level == 0 { vec![0, 1, 2, 3, 4, 7, 8, 63, 64, 65, 4075, 4076, 4077, 4095, 4096] } else { (0..=4096).collect() };
+    for l in lens {
+        v.push(GpuOp::UpdateScanout([1, 2, 3, 4, 5], l));
+    }
+    v
+}
